@@ -190,6 +190,8 @@ def strategy(profile, quick):
         base = e2e.case_strategy("cascade", max_ops=5, big=True, small_arena=True, dtypes=("int8", "int8", "uint8"))
     elif profile == "reshapes":
         base = e2e.case_strategy("reshapes", max_ops=3, big=False, dtypes=("int8", "int8", "uint8"))
+    elif profile == "fanout":
+        base = e2e.case_strategy("fanout", max_ops=4, big=False, dtypes=("int8", "int8", "uint8"))
     elif profile == "mixed":
         base = e2e.case_strategy("mixed", max_ops=7, big=False, dtypes=("int8", "int8", "uint8"))
     elif profile == "convs":
@@ -220,6 +222,7 @@ def parts(ctx):
     ps += [Part("elementwise%02d" % i, part, ("elementwise", i, 20 if q else 600)) for i in range(4)]
     ps += [Part("reshapes%02d" % i, part, ("reshapes", i, 20 if q else 600)) for i in range(4)]
     ps += [Part("mixed%02d" % i, part, ("mixed", i, 16 if q else 500)) for i in range(4)]
+    ps += [Part("fanout%02d" % i, part, ("fanout", i, 16 if q else 500)) for i in range(4)]
     ps += [Part("convs%02d" % i, part, ("convs", i, 25 if q else 700)) for i in range(4)]
     ps += [Part("int16-%02d" % i, part, ("exact16", i, 20 if q else 600)) for i in range(4)]
     ps += [Part("approx%02d" % i, part, ("approx", i, 20 if q else 600)) for i in range(4)]
